@@ -749,6 +749,23 @@ def r5_application(rep, src):
         rep.ok('C18.R5', g.site, 'regex selection by input type', good[0][:80], nontrivial=False)
     else:
         rep.fail('C18.R5', g.site, 'regex selection by input type', 'bytes lines are not matched with the bytes regex (or vice versa)', where=g.where)
+    # no line in command position is skipped: every path from the top of the command loop either reaches the parsed command or raises
+    from .. import paths
+    cloops = [s_ for s_ in gnode.body if isinstance(s_, ast.For)]
+    if len(cloops) == 1:
+        cbody = cloops[0].body
+        cut = next((i for i, s_ in enumerate(cbody) if isinstance(s_, ast.Assign) and isinstance(s_.value, ast.Call) and isinstance(s_.value.func, ast.Attribute)
+                    and s_.value.func.attr in ('groups', 'group', 'groupdict')), None)
+        if cut is None:
+            raise AnalysisError('%s: the command loop does not read the groups of a match' % g.site)
+        pre_paths = paths.Enumerator(paths.Folder(paths.module_consts(g.module, ''))).run(cbody[:cut], [paths.Path()])
+        skipped = [p_ for p_ in pre_paths if p_.outcome is not None and p_.outcome[0] in ('continue', 'break', 'return')]
+        if skipped:
+            rep.fail('C18.R5', g.site, 'no script line is skipped', 'on the path [%s] a line in command position is passed over without a patch and without ValueError: '
+                     'a command damaged into such a line is silently dropped and the remaining script is applied' % skipped[0].describe()[:120],
+                     where='%s:%d' % (g.module.relpath, skipped[0].outcome[2].lineno))
+        else:
+            rep.ok('C18.R5', g.site, 'no script line is skipped', '%d path(s) to the parsed command, the others raise' % len([p_ for p_ in pre_paths if p_.outcome is None]))
     # the no-match guard raises ValueError
     mvars = {s.targets[0].id for s in ast.walk(gnode) if isinstance(s, ast.Assign) and isinstance(s.targets[0], ast.Name) and isinstance(s.value, ast.Call)
              and isinstance(s.value.func, ast.Attribute) and s.value.func.attr in ('match', 'fullmatch')}
